@@ -3,6 +3,7 @@ package main
 // C16: stop groups, frontend life-cycles and reload against the real code.
 
 import (
+	"crypto/rsa"
 	"github.com/chihaya/chihaya/pkg/timecache"
 	"crypto/tls"
 	"path/filepath"
@@ -557,7 +558,7 @@ func lifeReload(c *Ctx, n int) {
 		}
 		before := ps.ScrapeSwarm(ih, bittorrent.IPv4)
 		port := freePort()
-		fe, err := httpfe.NewFrontend(lg, httpfe.Config{Addr: fmt.Sprintf("127.0.0.1:%d", port), AnnounceRoutes: []string{"/announce"}, ScrapeRoutes: []string{"/scrape"}})
+		fe, err := httpfe.NewFrontend(lg, httpfe.Config{Addr: fmt.Sprintf("127.0.0.1:%d", port), AnnounceRoutes: []string{"/announce"}, ScrapeRoutes: []string{"/scrape"}, EnableRequestTiming: true})
 		if err != nil {
 			return "new-failed"
 		}
@@ -618,6 +619,19 @@ func runC16(c *Ctx) {
 		replayC16(c, op, a)
 	}
 	r := c.R
+	{
+		// a hook with a background loop of its own: the JWT hook's refresh loop must end with its Stop
+		var ks []*rsa.PrivateKey
+		for i := 0; i < 2; i++ {
+			k, err := rsa.GenerateKey(crand.Reader, 2048)
+			if err != nil {
+				panic(err)
+			}
+			ks = append(ks, k)
+		}
+		jwtLifecycle(c, ks)
+	}
+	cfgFrontendAll(c) // a refused frontend configuration leaves no listener behind
 	for _, s := range []string{"-", "z", "a", "n1", "n2", "n1,n1", "z,n2,a,n1", "a,a", "n3,z,z,n1,a,n2"} {
 		grpStop(c, s)
 	}
